@@ -60,7 +60,7 @@ def find(air, sender, pdu):
 
 
 def activation(sx, tech, brs_rng, lri_rng, lrt_rng, rwt_rng, miu_rng, lto_rng,
-               lsc, services, did=None, nad=None, acm=False, agf=True):
+               lsc, services, did=None, nad=None, acm=False, agf=True, acm_device=False):
     """*_rng = [lo, hi] of the symbolic option (miu_rng/lto_rng: [[lo, hi] of
     the initiator device, [lo, hi] of the target device]); lsc = [initiator,
     target]; services = [initiator, target] lists of well-known service
@@ -77,6 +77,9 @@ def activation(sx, tech, brs_rng, lri_rng, lrt_rng, rwt_rng, miu_rng, lto_rng,
     lto_t = sx.int("lto.t", *lto_rng[1])
 
     air = Air(sx, tech=tech)
+    # acm_device: the initiator's device can sense in active communication
+    # mode (the ATR_REQ then opens the activation, no SENS/SENSF exchange)
+    air.acm_device = acm_device
     llc_i = llc.LogicalLinkController(miu=miu_i, lto=lto_i, lsc=lsc[0], agf=agf,
                                       sec=False)
     llc_t = llc.LogicalLinkController(miu=miu_t, lto=lto_t, lsc=lsc[1],
@@ -138,6 +141,11 @@ def activation(sx, tech, brs_rng, lri_rng, lrt_rng, rwt_rng, miu_rng, lto_rng,
         sx.check(False, "activation-failed:target" + tag)
     ini, tgt = llc_i.mac, llc_t.mac
     sx.reach("activated:" + tech)
+    if acm_device and acm:
+        if not air.active:
+            sx.check(False, "acm:activation-not-in-active-mode-although-asked-for-and-supported")
+        sx.check(ini.acm is True and tgt.acm is True, "acm:mode-not-held-by-both-sides")
+        sx.reach("activated:active-mode")
     if did is not None:
         sx.reach("did")
     if nad is not None:
@@ -447,6 +455,12 @@ def partitions(tier):
                         lsc=[k % 4, (k // 4) % 4], services=svc[k % 4],
                         acm=bool(k & 2), agf=bool(k & 4))
                     k += 1
+    # ---- active communication mode: the initiator's device can sense for an
+    # active target, the ATR_REQ opens the activation at 106 kbps
+    for a, ri in enumerate(cuts):
+        act("acm:106A:lri%d" % a, '106A', acm=True, acm_device=True, lri_rng=ri,
+            lrt_rng=[-1, 4] if not quick else [0, 3], rwt_rng=[0, 15] if not quick else [5, 9],
+            lsc=[a, (a + 2) % 4])
     # ---- DID / NAD handed to activate() directly (connect() never does)
     act("did:106A", '106A', did=1, lri_rng=[0, 3], lrt_rng=[0, 3], rwt_rng=[8, 8])
     act("nad:212F", '212F', nad=7, lri_rng=[0, 3], lrt_rng=[0, 3], rwt_rng=[8, 8])
@@ -458,7 +472,7 @@ def partitions(tier):
     return parts
 
 
-MUST_REACH = ["activated:106A", "activated:212F", "psl", "exchanged", "did", "nad", "passthrough", "llcp_traffic",
+MUST_REACH = ["activated:active-mode", "activated:106A", "activated:212F", "psl", "exchanged", "did", "nad", "passthrough", "llcp_traffic",
               "idle:initiator", "idle:target"]
 BOUNDS = {
     "quick": "two real LogicalLinkController.activate() stacks (Initiator and "
@@ -470,7 +484,7 @@ BOUNDS = {
     "with a default (lri/lrt {-1..0, 1..3, 4}, MIU {128, 129..2175}, LTO "
     "{10..100, 101..2550}); picked: LSC 0..3 on both devices (16 pairs "
     "spread over the partitions), service lists {none, 4, 4+16, 2+14+15, "
-    "4+11}, agf, acm asked for but unsupported by the device, DID=1, NAD=7; "
+    "4+11}, agf, acm asked for but unsupported by the device, acm asked for and supported (activation in active communication mode at 106A: ATR_REQ sent by sense(), lri ranges as above), DID=1, NAD=7; "
     "the LLCP grid uses rwt 6..10; after activation one chained payload of "
     "miu+1 bytes in each direction and release; timing on the virtual clock: "
     "own LTO 10..2550 ms x peer LTO 10..2550 ms (both symbolic), each role: "
@@ -485,7 +499,9 @@ BOUNDS = {
     "both LTO fully symbolic in one run)",
 }
 OUTSIDE = [
-    "active communication mode activation, 424F as polling technology "
+    "active communication mode at other rates than 106 kbps and its RF "
+    "collision avoidance (the air model only switches off the passive "
+    "discovery), 424F as polling technology "
     "(424F is reached through PSL_REQ), activation with a target handed to "
     "Initiator.activate(target=...)",
     "option pass-through of ContactlessFrontend._llcp_connect itself (the "
